@@ -107,7 +107,7 @@ func TestLenientDecodes(t *testing.T) {
 			return
 		}
 		obs := fmt.Sprintf("%s at pver %d: payload %s decodes without error but re-encodes (err=%v) to %s", cmd, pver, hexShort(payload), werr, hexShort(w.Bytes()[min(w.Len(), 24):]))
-		if recLenient.Known(sig, obs) {
+		if recLenient.Known(sig, knownObs) {
 			recLenient.Excluded()
 			return
 		}
